@@ -113,7 +113,7 @@ def run_cases(ctx, cases):
 
 
 def run(ctx):
-    run_cases(ctx, gen_cases(ctx))
+    run_cases(ctx, cw.corpus_cases(PROP) + gen_cases(ctx))
 
 
 def replay(ctx, obj):
